@@ -67,7 +67,10 @@ ASSUMPTIONS = [
     "T3l scenario discipline: pushes to a stream never overlap a join / free of that stream (the scheduler's last "
     "emptiness test is not visible in the trace; the model's `nStop` is placed where the main scheduler's function "
     "returns); the native thread's steps before the stream has a name in the trace read only initial values and are "
-    "placed right after `init` by the projection",
+    "placed right after `init` by the projection; once the join inside ABT_xstream_free is complete, ABTI_xstream_free "
+    "releases the scheduler, its ULT, the root ULT and the pool, whose memory other threads may reuse before the call "
+    "returns and the trace names are dropped: from that point only the context operations of the life are projected "
+    "(the model has no other step there)",
     "set_affinity is off (HAVE_PTHREAD_SETAFFINITY_NP undefined in this build), so set_rank does not touch CPU binding",
     "main-scheduler replacement is checked dynamically (RP) and, if Model.Replace is built, proved only for "
     "non-overlapping requests; the overlapping case is the open finding F7",
